@@ -12,7 +12,7 @@ from pv.core import Sub, EnumSub, Violation, call, call_or, must_raise, check, s
 
 ASSUMPTIONS = [
     'containers are list / tuple / dict / Dict / dictattr with string keys (what loop(list, tuple, dict) lifts over), depth <= 4, container sizes 0-3',
-    'different-shape companions are flat lists of 4-5 scalars, or dicts over keys no structure dict uses, with scalar values: the documented '
+    'different-shape companions are flat lists of 4-5 scalars, or dicts with scalar values over foreign keys or over any subset of the key alphabet (matched where the key sets coincide, broadcast elsewhere): the documented '
     '"re-match deeper" rule of _item_by_i/_item_by_key then cannot fire by accident and plain broadcasting is the only reading',
     'same-shape companions mirror the structure to depth k and are scalars below; no companion is named "axis" (a keyword the decorator consumes)',
     'replace(): `old` is one character or a list of 4-5 single characters not contained in `new`; split(): `sep` is a non-empty string',
@@ -132,7 +132,7 @@ def _lift_case(draw):
     ncomp = draw(st.sampled_from([0, 1, 1, 2, 2]))
     comps = []
     for j in range(ncomp):
-        kind = draw(st.sampled_from(['scalar', 'same', 'same', 'same_partial', 'flat_list', 'other_dict']))
+        kind = draw(st.sampled_from(['scalar', 'same', 'same', 'same_partial', 'flat_list', 'other_dict', 'overlap_dict']))
         if kind == 'scalar':
             c = ['leaf', draw(st.sampled_from([100, 'S', None]))]
         elif kind == 'same':
@@ -141,6 +141,10 @@ def _lift_case(draw):
             c = ['mirror', draw(st.integers(0, max(d - 1, 0))), j]
         elif kind == 'flat_list':
             c = [draw(st.sampled_from(['list', 'tuple'])), [['leaf', v] for v in draw(st.lists(st.integers(50, 59), min_size=4, max_size=5))]]
+        elif kind == 'overlap_dict':
+            # any key set over the structure's key alphabet plus a foreign key, scalar values: where it equals a dict's key set it is matched by key,
+            # everywhere else (e.g. same size, partly overlapping keys) it must be broadcast whole
+            c = [draw(st.sampled_from(['dict', 'Dict'])), [[k, ['leaf', 'o%i:%s' % (j, k)]] for k in draw(st.lists(st.sampled_from(_KEYS + ['x']), min_size=1, max_size=3, unique=True))]]
         else:
             c = ['dict', [[k, ['leaf', draw(st.integers(70, 79))]] for k in draw(st.lists(st.sampled_from(['x', 'y', 'z']), min_size=1, max_size=2, unique=True))]]
         comps.append(dict(kind=kind, spec=c, how=draw(st.sampled_from(['pos', 'pos', 'kw']))))
